@@ -1145,12 +1145,18 @@ func (t *Table) MergeCellsRange(startRow, endRow, startCol, endCol int) error {
 		return fmt.Errorf("行索引范围无效：[%d, %d]", startRow, endRow)
 	}
 
-	// 先水平合并每一行
+	// 先检查所有行的列范围，保证失败时表格保持原样（不会出现只合并了前几行的情况）
+	if startCol < 0 || startCol > endCol {
+		return fmt.Errorf("列索引范围无效：[%d, %d]", startCol, endCol)
+	}
 	for i := startRow; i <= endRow; i++ {
-		if startCol >= len(t.Rows[i].Cells) || endCol >= len(t.Rows[i].Cells) {
+		if endCol >= len(t.Rows[i].Cells) {
 			return fmt.Errorf("第%d行列索引范围无效：[%d, %d]", i, startCol, endCol)
 		}
+	}
 
+	// 先水平合并每一行
+	for i := startRow; i <= endRow; i++ {
 		if startCol != endCol {
 			err := t.MergeCellsHorizontal(i, startCol, endCol)
 			if err != nil {
